@@ -257,6 +257,44 @@ fn cmp_pair(col: &mut TCol, x: &[u8], y: &[u8], xb: &[(&'static str, Bytes)], yb
             }
         }
     }
+    // ---- BytesMut operands that come out of ONE buffer: regions never overlap, but an empty handle can start where a
+    //      non-empty one starts (split_to(0) / split_off(0) / split()), and halves can be adjacent
+    {
+        let mut views: Vec<(&'static str, BytesMut, BytesMut)> = Vec::new();
+        let mut cat = BytesMut::with_capacity(x.len() + y.len() + 3);
+        cat.extend_from_slice(x);
+        cat.extend_from_slice(y);
+        let tail = cat.split_off(x.len());
+        views.push(("adjacent halves of one buffer", cat, tail));
+        if x.is_empty() {
+            let mut b = BytesMut::from(y);
+            let head = b.split_to(0);
+            views.push(("empty head of split_to(0) vs rest", head, b));
+        }
+        if y.is_empty() {
+            let mut b = BytesMut::from(x);
+            let tail = b.split_off(x.len());
+            views.push(("all vs empty tail of split_off(len)", b, tail));
+            let mut b = BytesMut::from(x);
+            let all = b.split();
+            // `b` is now the empty remainder behind `all`; same start address only when x is empty too
+            views.push(("split() part vs empty remainder", all, b));
+        }
+        if x.is_empty() && !y.is_empty() {
+            let mut b = BytesMut::from(y);
+            let tail = b.split_off(0);
+            views.push(("emptied self of split_off(0) vs tail", b, tail));
+        }
+        for (vn, l, r) in &views {
+            chk_eq!(col, BytesMut, BytesMut, l, r, x, y, "BytesMut", "BytesMut", vn, "same buffer");
+            chk_ord!(col, BytesMut, BytesMut, l, r, x, y, "BytesMut", "BytesMut", vn, "same buffer");
+            chk_eq!(col, BytesMut, &BytesMut, l, &r, x, y, "BytesMut", "&BytesMut", vn, "same buffer");
+            col.evals += 1;
+            if Ord::cmp(l, r) != x.cmp(y) || (x == y && hash_log(l) != hash_log(r)) {
+                col.viol("C14", "cmp", "BytesMut", "BytesMut", format!("halves of one buffer: x={:02x?} y={:02x?}", x, y), replay14(x, y));
+            }
+        }
+    }
     // ---- Bytes on the right
     for (rn, r) in yb {
         chk_eq!(col, [u8], Bytes, x, r, x, y, "[u8]", "Bytes", "-", rn);
